@@ -228,8 +228,24 @@ class ElementTraits<std::index_sequence<I...>, Parameter...>
             address, SizeGetterType::template get<ParameterT, K>(fixed_sizes, result));
     }
 
+    static constexpr bool calculate_is_padding_free() noexcept
+    {
+        bool result = previous_trailing_alignment<sizeof...(Parameter)>() >= STORAGE_ELEMENT_ALIGNMENT;
+        ((result = result && previous_trailing_alignment<I>() >= ParameterTraitsAt<I>::ALIGNMENT), ...);
+        if constexpr (ListTraits::IS_FIXED_SIZE_OR_PLAIN)
+        {
+            result = result &&
+                     ParameterTraitsAt<sizeof...(Parameter) - 1>::TRAILING_ALIGNMENT >= STORAGE_ELEMENT_ALIGNMENT;
+        }
+        return result;
+    }
+
   public:
     using StorageElementType = detail::Aligned<STORAGE_ELEMENT_ALIGNMENT>;
+
+    // True if no alignment padding can occur, neither between the fields of an element nor between elements. Only
+    // then may the memory of a vector be compared as one range of bytes.
+    static constexpr bool IS_PADDING_FREE = calculate_is_padding_free();
 
     template <class StorageType, class Allocator>
     static constexpr StorageType allocate_memory(std::size_t size_in_bytes, const Allocator& allocator)
